@@ -35,6 +35,27 @@ LOG = []
 def log(kind, obj):
     names = [n for n in obj.__xpmtype__.arguments if n in vars(obj)]
     LOG.append((kind, obj, names, getattr(obj, "__tags__", None) if kind == "exec" else None))
+    import os
+    echo = os.environ.get("XV_ECHO")
+    if echo:   # a real job process: write what the task code observes
+        import json
+        rec = {"kind": kind, "obj": _oid(obj), "cls": type(obj).__mro__[1].__name__, "names": names}
+        if kind == "exec":
+            rec["tags"] = getattr(obj, "__tags__", None)
+            rec["desc"] = describe(obj, lambda o: {n: vars(o)[n] for n in o.__xpmtype__.arguments if n in vars(o)})
+        with open(echo, "at") as fp:
+            fp.write(json.dumps(rec) + chr(10))
+
+
+_OIDS = {}
+_KEEP = []
+
+
+def _oid(o):
+    if id(o) not in _OIDS:
+        _OIDS[id(o)] = len(_OIDS)
+        _KEEP.append(o)
+    return _OIDS[id(o)]
 
 
 def hx(s):
@@ -64,6 +85,41 @@ def plain(v, ref):
     if hasattr(v, "__xpmtype__"):
         return {"r": ref(v)}
     return {"unsupported": type(v).__name__}
+
+
+def clsname(o):
+    for k in type(o).__mro__:
+        if k.__dict__.get("__XPMValue__") is not None or k.__dict__.get("__xpmid__") is not None:
+            return f"{k.__module__}:{k.__qualname__}"
+    return type(o).__name__
+
+
+def describe(root, values_of, data_as_str=False):
+    """objects reachable from `root` through declared parameters, numbered by first visit"""
+    index, order, nodes = {}, [], []
+
+    def ref(o):
+        if id(o) not in index:
+            index[id(o)] = len(order)
+            order.append(o)
+        return index[id(o)]
+
+    ref(root)
+    i = 0
+    while i < len(order):
+        o = order[i]
+        i += 1
+        vals = []
+        present = values_of(o)
+        for name in o.__xpmtype__.arguments:
+            if name not in present:
+                continue
+            v = present[name]
+            if data_as_str and o.__xpmtype__.arguments[name].is_data and isinstance(v, Path):
+                v = str(v)
+            vals.append([hx(name), plain(v, ref)])
+        nodes.append({"cls": clsname(o), "values": sorted(vals)})
+    return nodes
 
 
 def describe_instance(root):
@@ -921,6 +977,96 @@ def run_witness(mod, lib, case, root, canon, datadir):
     return rec
 
 
+PROC_COUNTER = [0]
+
+
+def run_proc(mod, lib, case, root, canon, datadir):
+    """a real job process: the task is submitted in GENERATE_ONLY mode (real job script + params.json),
+    the script is run with the real interpreter, the generated classes echo what they observe"""
+    import subprocess
+    import xvlog
+    from experimaestro import experiment, RunMode
+    from . import cfgbuild
+    rec = {"lines": [], "impl": [], "monitors": [], "stats": {}}
+    which = case.get("monitors", "c12")
+
+    def mon(key, what, detail=None):
+        rec["monitors"].append({"key": key, "what": what, "detail": detail})
+
+    g = localise(case["graph"], datadir)
+    inits = list(g["nodes"][0]["init"])
+    g["nodes"][0]["init"] = []
+    objs = cfgbuild.build_graph(mod, g)
+    rootobj = objs[0]
+    PROC_COUNTER[0] += 1
+    ws = root / f"ws{PROC_COUNTER[0]}"
+    with experiment(ws, "xv", port=-1, run_mode=RunMode.GENERATE_ONLY):
+        rootobj.submit(init_tasks=[objs[i] for i in inits])
+    job = rootobj.__xpm__.job
+    jp = Path(job.path)
+    scripts = list(jp.glob("*.py"))
+    if len(scripts) != 1 or not (jp / "params.json").is_file():
+        raise RuntimeError(f"unexpected job directory content: {[f.name for f in jp.iterdir()]}")
+    echo = jp / "xv-echo.jsonl"
+    env = dict(os.environ)
+    src = os.environ.get("XPM_REPO", "/repo") + "/src"
+    env["PYTHONPATH"] = ":".join([str(root), src] + ([env["PYTHONPATH"]] if env.get("PYTHONPATH") else []))
+    env["XV_ECHO"] = str(echo)
+    p = subprocess.run([sys.executable, str(scripts[0])], cwd=str(jp), env=env, capture_output=True, text=True, timeout=180)
+    done = list(jp.glob("*.done"))
+    events = [json.loads(l) for l in echo.read_text().splitlines()] if echo.exists() else []
+    rec["stats"]["events"] = len(events)
+    if not done:
+        mon("proc:job-failed", f"the job process did not finish successfully (rc={p.returncode}): {p.stderr[-400:]}")
+        return rec
+    defs = json.loads((jp / "params.json").read_text())["objects"]
+    execs = [e for e in events if e["kind"] == "exec"]
+    if not execs:
+        mon("proc:body-not-run", "no execute() was observed in the job process")
+        return rec
+    body = execs[-1]
+    if which == "c12":
+        want = xvlog.describe(rootobj, lambda o: dict(o.__xpm__.values))
+        if body["desc"] != want:
+            want_s = xvlog.describe(rootobj, lambda o: dict(o.__xpm__.values), data_as_str=True)
+            if body["desc"] == want_s:
+                mon("job-side:data-path-as-str", "real job process: the task body sees a DataPath parameter as a str instead of a Path", {"entry": "process"})
+            else:
+                mon("proc:values-differ", f"real job process: the parameter values echoed by the task body differ from the configured ones: "
+                    f"{json.dumps(body['desc'])[:300]} vs {json.dumps(want)[:300]}", {"entry": "process"})
+        wt = json.loads(json.dumps(rootobj.tags()))
+        if body.get("tags") != wt:
+            mon("proc:tags-differ", f"real job process: the task body observed tags {body.get('tags')} instead of {wt}", {"entry": "process"})
+    else:
+        by_id = {id(o): o for o in objs}
+        need = [by_id[d["id"]] for d in defs if d["id"] in by_id]
+        inits_ev = [e for e in events if e["kind"] == "init"]
+        posts = [e for e in events if e["kind"] == "post"]
+        if len(inits_ev) != len(need) or len({e["obj"] for e in inits_ev}) != len(inits_ev):
+            mon("proc:objects", f"real job process: {len(inits_ev)} objects initialised for {len(need)} configurations")
+        if sorted(e["obj"] for e in posts) != sorted(e["obj"] for e in inits_ev):
+            mon("proc:post-init", "real job process: __post_init__ did not run exactly once per object")
+        for e in posts:
+            k = next((c for c in need if type(c).__mro__[1].__name__ == e["cls"] or e["cls"] in [b.__name__ for b in type(c).__mro__]), None)
+        sig = lambda c: (type(c).__name__.split(".")[0], json.dumps(xvlog.describe(c, lambda o: dict(o.__xpm__.values))[0]["values"]))
+        esig = lambda e: (e["cls"], json.dumps(e["desc"][0]["values"]))
+        pre = all_pre_tasks(need)
+        init = [objs[i] for i in inits]
+        lw = execs[:-1]
+        if len(lw) != len(pre) + len(init):
+            mon("proc:exec-count", f"real job process: {len(lw)} lightweight executions for {len(pre)} pre-tasks and {len(init)} init tasks")
+        else:
+            if sorted(esig(e) for e in lw[:len(pre)]) != sorted(sig(c) for c in pre):
+                mon("proc:pre-tasks", "real job process: the pre-tasks did not each run once before the init tasks")
+            if [esig(e) for e in lw[len(pre):]] != [sig(c) for c in init]:
+                mon("proc:init-tasks", "real job process: the init tasks did not run once, in order, after the pre-tasks")
+        if len({e["obj"] for e in lw}) != len(lw):
+            mon("proc:exec-twice", "real job process: a lightweight task object was executed twice")
+        if esig(body)[0] != type(rootobj).__name__.split(".")[0]:
+            mon("proc:body", "real job process: the last execution is not the task body")
+    return rec
+
+
 def main():
     data = json.loads(Path(sys.argv[1]).read_text())
     root = Path(tempfile.mkdtemp(prefix="xvser-"))
@@ -935,7 +1081,7 @@ def main():
             mod, lib = mods[case["lib"]], data["libs"][case["lib"]]
             canon = Canon(datadir)
             try:
-                fn = {"c12": run_c12, "c13": run_c13, "witness": run_witness}[case["kind"]]
+                fn = {"c12": run_c12, "c13": run_c13, "witness": run_witness, "proc": run_proc}[case["kind"]]
                 rec = fn(mod, lib, case, root, canon, datadir)
                 rec["error"] = None
             except Exception as e:
